@@ -550,7 +550,7 @@ func NativeReplay(h *HarnessSpec, hdir, cexPath, outDir string) (string, string)
 	cmd := exec.CommandContext(ctx, "go", "test", "-v", "-vet=off", "-count=1", "-run", "^TestVerifReplay$", "-overlay", ovFile, "-timeout", "120s", ".")
 	cmd.Dir = h.PkgDir()
 	abs, _ := filepath.Abs(cexPath)
-	cmd.Env = append(GoEnv(), "VERIF_MODEL="+abs)
+	cmd.Env = append(GoEnv(filepath.Join(tmp, "gomod")), "VERIF_MODEL="+abs)
 	outB, _ := cmd.CombinedOutput()
 	out := string(outB)
 	switch {
